@@ -64,38 +64,29 @@ pub fn expand_type_support(input: &DeriveInput) -> Result<TokenStream> {
                     .map(|i| i.to_string())
                     .unwrap_or(member_index.to_string());
 
-                let member_id = if struct_member_attributes.hashid {
+                // XTypes 1.3 7.3.1.2.1.1: explicit @id, @hashid (first 4 bytes of MD5(name), little
+                // endian, masked to 28 bits) or the previous member id + 1, whatever the extensibility
+                let member_id: syn::Expr = if struct_member_attributes.hashid {
                     let member_hash = <[u8; 16]>::from(md5::compute(member_name.as_bytes()));
                     let member_hash_int = u32::from_le_bytes([
                         member_hash[0],
                         member_hash[1],
                         member_hash[2],
                         member_hash[3],
-                    ]);
+                    ]) & 0x0FFF_FFFF;
                     syn::parse_str(&member_hash_int.to_string())?
+                } else if let Some(provided_id) = struct_member_attributes.id {
+                    provided_id
                 } else {
-                    match r#struct.extensibility {
-                        Extensibility::Final | Extensibility::Appendable => {
-                            syn::parse_str(&member_index.to_string())
-                        }
-                        Extensibility::Mutable => {
-                            if let Some(provided_id) = struct_member_attributes.id {
-                                Ok(provided_id)
-                            } else {
-                                syn::parse_str(&next_auto_id.to_string())
-                            }
-                        }
-                    }?
+                    syn::parse_str(&next_auto_id.to_string())?
                 };
 
-                if !struct_member_attributes.hashid {
-                    if let syn::Expr::Lit(syn::ExprLit {
-                        lit: syn::Lit::Int(lit_int),
-                        ..
-                    }) = &member_id
-                    {
-                        next_auto_id = lit_int.base10_parse::<u32>()? + 1;
-                    }
+                if let syn::Expr::Lit(syn::ExprLit {
+                    lit: syn::Lit::Int(lit_int),
+                    ..
+                }) = &member_id
+                {
+                    next_auto_id = lit_int.base10_parse::<u32>()? + 1;
                 }
 
                 let member_type = &member.ty;
